@@ -1268,6 +1268,94 @@ def judgeC04 (ops : List OpRec) : List String :=
     { s with cluster := c' }) ({} : JSt)
   s.out
 
+/-! ### C01 -/
+
+/-- all plain messages of a partition log (wrappers opened), in log order -/
+def logMessages (ps : PartState) : List (Int × Bytes × Bytes) :=
+  exposed leanDec 4 (ps.entries.flatMap (·.bytes)) (-9223372036854775808)
+
+structure J01 where
+  cluster : Cluster := {}
+  live : Bool := false
+  /-- per consumed (topic, partition): start offset (creation or last seek; none = not yet known) and what has been delivered since -/
+  parts : List ((Bytes × Int) × (Option Int × List String)) := []
+  out : List String := []
+
+def msgStr (x : Int × Bytes × Bytes) : String := s!"{x.1}:{toHexTok x.2.1}:{toHexTok x.2.2}"
+
+/-- parse " t/p=[a,b]" tokens of a poll result -/
+def pollSets (result : String) : List ((Bytes × Int) × List String) :=
+  ((result.splitOn " ").drop 2).filterMap fun (tok : String) =>
+    match tok.splitOn "=" with
+    | [tp, ms] =>
+      match tp.splitOn "/" with
+      | [t, p] =>
+        match fromHex t, p.toInt? with
+        | some t, some p =>
+          let inner := ((ms.drop 1).toString.splitOn "]").head!
+          some ((t, p), if inner == "" then [] else inner.splitOn ",")
+        | _, _ => none
+      | _ => none
+    | _ => none
+
+def judgeC01 (ops : List OpRec) : List String :=
+  let v (s : J01) (sig : String) (op : OpRec) (d : String) : J01 :=
+    { s with out := s.out ++ [s!"{sig} | op {op.idx} `{" ".intercalate (op.toks.take 1)}`: {d}"] }
+  let s := ops.foldl (fun (s : J01) op =>
+    let s := { s with cluster := applySetup s.cluster op.setup }
+    let s := match op.toks with
+    | "consumer_create" :: _ => { s with live := op.result == "ok", parts := [] }
+    | ["seek", t, p, o] =>
+      match fromHex t, p.toInt?, o.toInt? with
+      | some t, some p, some o =>
+        if op.result == "ok" then { s with parts := (s.parts.filter fun (x : (Bytes × Int) × (Option Int × List String)) => x.1 != (t, p)) ++ [((t, p), (some o, []))] } else s
+      | _, _, _ => s
+    | ["poll"] =>
+      if !s.live then s else
+      if op.result.startsWith "err" || op.result == "panic" || op.result == "noobj" then s else
+      let sets := pollSets op.result
+      -- the emptiness flag agrees with what iterating yields
+      let flagEmpty := (op.result.splitOn " ").getD 1 "" == "empty=1"
+      let s := if flagEmpty == sets.isEmpty then s else v s "C01-empty-flag" op s!"is_empty() = {flagEmpty} but iterating yields {sets.length} message set(s)"
+      -- the first fetch after creation / seek reveals the start offset when it is not known yet
+      let reqOffsets : List ((Bytes × Int) × Int) := (framesOf op).flatMap fun (x : Bytes × Request) => match x.2.body with
+        | ReqBody.fetch _ _ _ ts => ts.flatMap fun (tp : Bytes × List FetchPart) => tp.2.map fun (fp : FetchPart) => ((tp.1, fp.partition), fp.offset)
+        | _ => []
+      let s := reqOffsets.foldl (fun (s : J01) (x : (Bytes × Int) × Int) =>
+        match s.parts.find? (fun (y : (Bytes × Int) × (Option Int × List String)) => y.1 == x.1) with
+        | some (_, (some _, _)) => s
+        | some (_, (none, dl)) => { s with parts := (s.parts.filter fun (y : (Bytes × Int) × (Option Int × List String)) => y.1 != x.1) ++ [(x.1, (some x.2, dl))] }
+        | none => { s with parts := s.parts ++ [(x.1, (some x.2, []))] }) s
+      -- every delivered set extends "the log from the start offset onward": exactly once, in order, right label
+      sets.foldl (fun (s : J01) (x : (Bytes × Int) × List String) =>
+        match s.cluster.part? x.1.1 x.1.2, s.parts.find? (fun (y : (Bytes × Int) × (Option Int × List String)) => y.1 == x.1) with
+        | some ps, some (_, (some start, dl)) =>
+          let truth := ((logMessages ps).filter fun (m : Int × Bytes × Bytes) => m.1 ≥ start).map msgStr
+          let dl' := dl ++ x.2
+          let s := { s with parts := (s.parts.filter fun (y : (Bytes × Int) × (Option Int × List String)) => y.1 != x.1) ++ [(x.1, (some start, dl'))] }
+          if dl' == truth.take dl'.length then s
+          else v s "C01-delivery" op s!"{toHexTok x.1.1}/{x.1.2}: delivered so far {dl'} is not the log from offset {start} onward {truth.take (dl'.length + 2)}"
+        | none, _ => v s "C01-label" op s!"messages labelled {toHexTok x.1.1}/{x.1.2}: no such partition"
+        | _, _ => v s "C01-label" op s!"messages labelled {toHexTok x.1.1}/{x.1.2}, which this consumer never fetched") s
+    | ["drain_check"] => s
+    | _ => s
+    { s with cluster := evolve s.cluster op }) ({} : J01)
+  -- at the end of a scenario that finished with fault-free polls: nothing retained was left undelivered
+  let s := match ops.getLast? with
+    | some last =>
+      if last.toks == ["poll"] && last.result == "ok empty=1" then
+        s.parts.foldl (fun (s : J01) (x : (Bytes × Int) × (Option Int × List String)) =>
+          match s.cluster.part? x.1.1 x.1.2, x.2.1 with
+          | some ps, some start =>
+            let truth := ((logMessages ps).filter fun (m : Int × Bytes × Bytes) => m.1 ≥ start).map msgStr
+            if (s.cluster.brokers.any fun (b : BrokerMeta) => b.nodeId == ps.leader) && x.2.2 != truth then
+              v s "C01-undelivered" last s!"{toHexTok x.1.1}/{x.1.2}: an empty poll although {truth.drop x.2.2.length |>.take 3} were never delivered (delivered {x.2.2.length} of {truth.length})"
+            else s
+          | _, _ => s) s
+      else s
+    | none => s
+  s.out
+
 def judge (prop : String) (lines : List String) : List String :=
   let ops := parseOps lines
   match prop with
@@ -1285,6 +1373,7 @@ def judge (prop : String) (lines : List String) : List String :=
   | "C06" => judgeC06 ops
   | "C02" => judgeC02 ops
   | "C04" => judgeC04 ops
+  | "C01" => judgeC01 ops
   | _ => []
 
 end Kafka.Judge
